@@ -14,8 +14,9 @@ use crate::{errors, rpc_errors};
 
 use bitcoin::{Transaction, Txid};
 use bitcoincore_rpc::{
-    jsonrpc::error::Error::Rpc as RpcError, jsonrpc::error::Error::Transport as TransportError,
-    Client as BitcoindClient, Error::JsonRpc as JsonRpcError, RpcApi,
+    jsonrpc::error::Error::Json as IncompleteReply, jsonrpc::error::Error::Rpc as RpcError,
+    jsonrpc::error::Error::Transport as TransportError, Client as BitcoindClient,
+    Error::JsonRpc as JsonRpcError, RpcApi,
 };
 
 /// How long a request that found bitcoind unreachable waits to be told that it is reachable again before retrying by itself.
@@ -170,6 +171,12 @@ impl Carrier {
                 self.flag_bitcoind_unreachable();
                 return None;
             }
+            Err(JsonRpcError(IncompleteReply(e))) if e.is_eof() => {
+                // The connection was lost in the middle of the reply: this is no verdict on the transaction.
+                log::error!("Connection lost with bitcoind, retrying request when possible");
+                self.flag_bitcoind_unreachable();
+                return None;
+            }
             Err(e) => {
                 // TODO: This may need finer catching.
                 log::error!("Unexpected error when calling sendrawtransaction: {e:?}");
@@ -217,6 +224,12 @@ impl Carrier {
             },
             Err(JsonRpcError(TransportError(_))) => {
                 // Connection refused, bitcoind is down.
+                log::error!("Connection lost with bitcoind, retrying request when possible");
+                self.flag_bitcoind_unreachable();
+                return None;
+            }
+            Err(JsonRpcError(IncompleteReply(e))) if e.is_eof() => {
+                // The connection was lost in the middle of the reply: the transaction may or may not be there.
                 log::error!("Connection lost with bitcoind, retrying request when possible");
                 self.flag_bitcoind_unreachable();
                 return None;
